@@ -3,6 +3,7 @@ package main
 // Go expressions → SMT terms, with automatic safety obligations.
 
 import (
+	"sort"
 	"bytes"
 	"fmt"
 	"go/ast"
@@ -482,16 +483,30 @@ func (fv *FV) evalCompositeLit(st *State, x *ast.CompositeLit, addr bool) Term {
 				vals[i] = v
 			}
 		}
+		if !addr && isUserByRef(t) {
+			// a value of a by-reference struct type is a fresh object
+			p := fv.evalCompositeLit(st, x, true)
+			p.T = t
+			return p
+		}
 		if addr {
 			if named == nil {
 				fv.fail(x.Pos(), "address of anonymous struct literal")
 			}
 			r := fv.newRef(st, "new"+named.Obj().Name())
 			for j := 0; j < ut.NumFields(); j++ {
-				if isOpaqueStruct(ut.Field(j).Type()) {
+				key, _ := fv.fieldComp(named, ut.Field(j))
+				if isUserByRef(ut.Field(j).Type()) {
+					// the embedded object is a new one; a value given in the literal is copied into it
+					given := vals[j]
+					e := fv.allocEmbedded(st, key, r, ut.Field(j).Type(), x.Pos())
+					if given.S != "0" {
+						fv.copyStruct(st, e, given.S, ut.Field(j).Type())
+					}
+					vals[j] = Term{S: e, Sort: sInt}
+				} else if isOpaqueStruct(ut.Field(j).Type()) {
 					vals[j] = Term{S: fv.newRef(st, "emb"+ut.Field(j).Name()), Sort: sInt} // the embedded object
 				}
-				key, _ := fv.fieldComp(named, ut.Field(j))
 				fv.heapSetNoFrame(st, key, sto(fv.heapGet(st, key), r, vals[j].S))
 			}
 			fv.initGhostFields(st, named, r)
@@ -553,11 +568,19 @@ func (fv *FV) evalAddrOf(st *State, x *ast.UnaryExpr) Term {
 	case *ast.SelectorExpr:
 		// &p.f: pointer to a field (used for mutexes and embedded values): modelled as a field pointer
 		if sel := fv.info.Selections[y]; sel != nil && sel.Kind() == types.FieldVal {
+			if isUserByRef(fv.typeOf(y)) {
+				// &p.f with f an embedded by-reference struct: the embedded object itself
+				v := fv.evalSelector(st, y)
+				return Term{S: v.S, Sort: sInt, T: fv.typeOf(x)}
+			}
 			base := fv.evalExpr(st, y.X)
 			return fv.fieldPtr(st, base, y.Sel.Name, fv.typeOf(x))
 		}
 	case *ast.Ident:
 		obj := fv.info.ObjectOf(y)
+		if c, ok := st.vars[obj]; ok && isUserByRef(obj.Type()) {
+			return Term{S: c.S, Sort: sInt, T: fv.typeOf(x)}
+		}
 		if c, ok := st.vars[obj]; ok && c.Sort == sInt && strings.HasPrefix(c.S, "cell") {
 			return Term{S: c.S, Sort: sInt, T: fv.typeOf(x)}
 		}
@@ -626,4 +649,54 @@ func (fv *FV) derefRead(st *State, p Term, pos token.Pos) Term {
 
 func (fv *FV) evalFuncLit(st *State, x *ast.FuncLit) Term {
 	return fv.closureValue(st, x)
+}
+
+// copyStruct copies every field of the by-reference struct object src into dst (assignment of struct values).
+func (fv *FV) copyStruct(st *State, dst, src string, t types.Type) {
+	named, sty := structOf(t)
+	if sty == nil || named == nil {
+		fv.fail(token.NoPos, "copy of a non-struct %s", t)
+	}
+	for j := 0; j < sty.NumFields(); j++ {
+		f := sty.Field(j)
+		key, _ := fv.fieldComp(named, f)
+		if isUserByRef(f.Type()) {
+			fv.copyStruct(st, sel(fv.heapGet(st, key), dst), sel(fv.heapGet(st, key), src), f.Type())
+			continue
+		}
+		fv.heapSet(st, key, sto(fv.heapGet(st, key), dst, sel(fv.heapGet(st, key), src)))
+	}
+	// ghost fields travel with the value
+	if pc := fv.w.contracts[pkgPathOf(named.Obj())]; pc != nil {
+		var names []string
+		for k := range pc.GhostFlds {
+			if strings.HasPrefix(k, named.Obj().Name()+".") {
+				names = append(names, k[len(named.Obj().Name())+1:])
+			}
+		}
+		sort.Strings(names)
+		for _, gname := range names {
+			d := fv.ghostFieldTerm(st, named, gname, pc.GhostFlds[named.Obj().Name()+"."+gname], Term{S: dst, Sort: sInt})
+			sv := fv.ghostFieldTerm(st, named, gname, pc.GhostFlds[named.Obj().Name()+"."+gname], Term{S: src, Sort: sInt})
+			_ = d
+			key := "F:" + shortPkg(pkgPathOf(named.Obj())) + "." + named.Obj().Name() + "." + gname + "$ghost"
+			fv.heapSet(st, key, sto(fv.heapGet(st, key), dst, sv.S))
+		}
+	}
+}
+
+// cloneStruct returns a fresh object equal to src (value semantics of a struct held by reference).
+func (fv *FV) cloneStruct(st *State, src Term) Term {
+	e := fv.allocZero(st, src.T, token.NoPos)
+	fv.copyStruct(st, e.S, src.S, src.T)
+	return Term{S: e.S, Sort: sInt, T: src.T}
+}
+
+// freshValueExpr: expressions whose by-reference struct result nobody else holds (a literal, a call result).
+func freshValueExpr(e ast.Expr) bool {
+	switch ast.Unparen(e).(type) {
+	case *ast.CompositeLit, *ast.CallExpr:
+		return true
+	}
+	return false
 }
